@@ -1,0 +1,47 @@
+//go:build verif
+
+// Contracts for the error envelope (property C05). Comment-only.
+
+package vgirpc
+
+// The wire names of the typed framework errors.
+//
+//@ func (*MethodNotImplementedError).ErrorType
+//@   property C05
+//@   modifies nothing
+//@   ensures result == "AttributeError"
+//@ func (*ProtocolVersionError).ErrorType
+//@   property C05
+//@   modifies nothing
+//@   ensures result == "ProtocolVersionError"
+//@ func (*SessionLostError).ErrorType
+//@   property C05
+//@   modifies nothing
+//@   ensures result == "SessionLostError"
+//@ func (*ServerDrainingError).ErrorType
+//@   property C05
+//@   modifies nothing
+//@   ensures result == "ServerDrainingError"
+//@ func (*externalCapError).ErrorType
+//@   property C05
+//@   modifies nothing
+//@   ensures result == "RuntimeError"
+
+// buildErrorExtra: the exception type written to the wire is the RpcError's own Type, the
+// framework's wire name for a typed framework error, and "RuntimeError" for every other error
+// value (plain, wrapped, foreign): no Go type name reaches the wire. Traceback and frames only
+// in debug mode.
+//
+//@ pure func isFrameworkErr(err error) bool = typeof(err) == *RpcError || typeof(err) == *MethodNotImplementedError ||
+//@     typeof(err) == *SessionLostError || typeof(err) == *ServerDrainingError || typeof(err) == *ProtocolVersionError || typeof(err) == *externalCapError
+//@ func buildErrorExtra
+//@   property C05
+//@   requires err != nil
+//@   at call json.Marshal assert [rpcerror] typeof(err) == *RpcError ==> extra.ExceptionType == as(err, "*RpcError").Type
+//@   at call json.Marshal assert [typed] (typeof(err) == *MethodNotImplementedError ==> extra.ExceptionType == "AttributeError") &&
+//@       (typeof(err) == *SessionLostError ==> extra.ExceptionType == "SessionLostError") &&
+//@       (typeof(err) == *ServerDrainingError ==> extra.ExceptionType == "ServerDrainingError") &&
+//@       (typeof(err) == *ProtocolVersionError ==> extra.ExceptionType == "ProtocolVersionError") &&
+//@       (typeof(err) == *externalCapError ==> extra.ExceptionType == "RuntimeError")
+//@   at call json.Marshal assert [other] !isFrameworkErr(err) ==> extra.ExceptionType == "RuntimeError"
+//@   at call json.Marshal assert [nodebug] !debug ==> extra.Traceback == "" && len(extra.Frames) == 0
